@@ -205,7 +205,7 @@ func families(tier string) []*core.Family {
 	}
 	n := uint64(len(catalogue))
 	pairs := &core.Family{
-		Name: fmt.Sprintf("concurrent-pairs-bound%d", bound), Size: n * n, HangSeconds: 600, BudgetSeconds: budget,
+		Name: fmt.Sprintf("concurrent-pairs-bound%d", bound), Size: n * n, HangSeconds: budget + 900, BudgetSeconds: budget,
 		Show: func(i uint64) string {
 			return "runtimes " + tupleName([]script{catalogue[i/n], catalogue[i%n]}) + " on two goroutines, all schedules within the bound"
 		},
@@ -219,7 +219,7 @@ func families(tier string) []*core.Family {
 	fams := []*core.Family{pairs}
 	// triples: every script with two copies of itself's neighbours (i, i+1, i+2)
 	triples := &core.Family{
-		Name: "concurrent-triples-bound0", Size: n, HangSeconds: 600, BudgetSeconds: budget,
+		Name: "concurrent-triples-bound0", Size: n, HangSeconds: budget + 900, BudgetSeconds: budget,
 		Show: func(i uint64) string {
 			return "runtimes " + tupleName([]script{catalogue[i], catalogue[(i+1)%n], catalogue[(i+2)%n]}) + " on three goroutines"
 		},
